@@ -336,6 +336,8 @@ def build_matcharm(spec: dict, sections: dict, log: list, twin: bool = False):
     rewrites = [r for r in spec.get('rewrites', '').split(',') if r]
     if 'R15' in rewrites:
         _rewrite_r15(it, edits, applied, relfile, o, c)
+    if 'R19' in rewrites:
+        _rewrite_r19(it, edits, applied, relfile, o, c)
     edits = [e for e in edits if not any(f is not e and f.start <= e.start and e.end <= f.end and (f.end - f.start) > (e.end - e.start) for f in edits)]
     body, borg = rsx.apply_edits(src, toks[o].start, toks[c].end, edits)
     name = spec['as'] + ('__canary' if twin else '')
@@ -644,6 +646,35 @@ def build_item(spec: dict, sections: dict, substs: list, defines: set, log: list
                     j = c + 1
                 else:
                     j += 1
+        # ---- R16 (keep form): `//@keeparm PATTERN` lines name the arms of ONE match that stay; the body of every other arm
+        # of that match is replaced by the unreachable marker (robust against arms being added or reworded)
+        keep = sections.get(('keeparm',), [])
+        if keep:
+            kt = [[t.text for t in rsx.tokenize(k)] for k in keep]
+            found_match = None
+            for j in range(lo_t, hi_t):
+                if toks[j].text == 'match':
+                    b = j + 1
+                    while toks[b].text != '{':
+                        if toks[b].text in ('(', '['):
+                            b = rsx.match_close(toks, b)
+                        b += 1
+                    arms = _match_arms(toks, b)
+                    pats = [[t.text for t in toks[a[0]:a[1]]] for a in arms]
+                    if all(any(p[:len(k)] == k for p in pats) for k in kt):
+                        found_match = (b, arms, pats)
+                        break
+            if found_match is None:
+                raise LostAnchor(f'{where}: no match whose arms include every //@keeparm pattern')
+            b, arms, pats = found_match
+            ndrop = 0
+            for (ps, arrow, bs, be), p in zip(arms, pats):
+                if any(p[:len(k)] == k for k in kt):
+                    continue
+                edits.append(Edit(toks[bs].start, toks[be].end, '{ __arm_outside_contract() }', 'R16'))
+                ndrop += 1
+            applied.append(f'R16 {relfile}:{it.line_of(toks[b].start)}: of the {len(arms)} arms of the match, the bodies of the {ndrop} arms other than '
+                           + ', '.join(f'`{k}`' for k in keep) + ' replaced by an unreachable marker (`requires false`); the contract excludes those cases')
         # ---- R16: a match arm outside the contract's precondition is replaced by an unreachable marker
         for pat in sections.get(('droparm',), []):
             ptoks = [t.text for t in rsx.tokenize(pat)]
@@ -760,6 +791,44 @@ def _rewrite_r12(it, rewrites, edits, applied, relfile, lo_t, hi_t):
             j += 1
 
 
+def _match_arms(toks, open_brace):
+    """arms of the match whose body opens at toks[open_brace]: list of (pattern_start, arrow, body_start, body_end) token indices"""
+    close = rsx.match_close(toks, open_brace)
+    arms = []
+    j = open_brace + 1
+    while j < close:
+        ps = j
+        k = j
+        while toks[k].text != '=>':
+            if toks[k].text in ('(', '[', '{'):
+                k = rsx.match_close(toks, k)
+            k += 1
+        bs = k + 1
+        if toks[bs].text == '{':
+            be = rsx.match_close(toks, bs)
+            nxt = be + 1
+            if nxt < close and toks[nxt].text == ',':
+                nxt += 1
+        else:
+            be = bs
+            while be + 1 < close and toks[be + 1].text != ',':
+                if toks[be + 1].text in ('(', '[', '{'):
+                    be = rsx.match_close(toks, be + 1)
+                else:
+                    be += 1
+            if toks[be].text in ('(', '[', '{') and be == bs:
+                be = rsx.match_close(toks, bs)
+                while be + 1 < close and toks[be + 1].text != ',':
+                    if toks[be + 1].text in ('(', '[', '{'):
+                        be = rsx.match_close(toks, be + 1)
+                    else:
+                        be += 1
+            nxt = be + 2
+        arms.append((ps, k, bs, be))
+        j = nxt
+    return arms
+
+
 def _hoist_closures(it, sections, edits, applied, relfile):
     """R13: `let NAME = |PARAMS| BODY;` (named in a //@closure section) -> a separate fn NAME. Capture-free
     closures become free functions; a closure that captures only `self` (//@closure NAME RET self) becomes a
@@ -815,6 +884,32 @@ def _hoist_closures(it, sections, edits, applied, relfile):
     return hoisted
 
 
+def _rewrite_r19(it, edits, applied, relfile, lo_t, hi_t):
+    """R19: `RECV.map(|x| Ok(E)).transpose()?` -> `(match RECV { Some(x) => Some(E), None => None })`.
+    The definition of Option::map + Option::transpose + `?`: a `?` inside E left the closure with Err, which
+    transpose and the outer `?` turned into the enclosing function's Err; in the match it does so directly
+    (same error type). Verus cannot take a `&mut self`-capturing closure that uses `?`."""
+    toks, src = it.toks, it.src
+    j = lo_t
+    while j < hi_t - 8:
+        if (toks[j].text == '.' and toks[j + 1].text == 'map' and toks[j + 2].text == '(' and toks[j + 3].text == '|'
+                and toks[j + 4].kind == 'ident' and toks[j + 5].text == '|' and toks[j + 6].text == 'Ok' and toks[j + 7].text == '('):
+            mclose = rsx.match_close(toks, j + 2)
+            okclose = rsx.match_close(toks, j + 7)
+            if (okclose == mclose - 1 and toks[mclose + 1].text == '.' and toks[mclose + 2].text == 'transpose'
+                    and toks[mclose + 3].text == '(' and toks[mclose + 4].text == ')' and toks[mclose + 5].text == '?'):
+                r0 = rsx.postfix_chain_start(toks, j, lo_t)
+                recv = ' '.join(src[toks[r0].start:toks[j - 1].end].split())
+                var = toks[j + 4].text
+                body = src[toks[j + 8].start:toks[okclose - 1].end]
+                new = f'(match {recv} {{ Some({var}) => Some({body}), None => None }})'
+                edits.append(Edit(toks[r0].start, toks[mclose + 5].end, new, 'R19'))
+                applied.append(f'R19 {relfile}:{it.line_of(toks[j].start)}: `{recv}.map(|{var}| Ok({" ".join(body.split())})).transpose()?` -> `{new}`')
+                j = mclose + 6
+                continue
+        j += 1
+
+
 def _rewrite_r15(it, edits, applied, relfile, lo_t, hi_t):
     """R15: diagnostic text construction — `format!(..)` and `RECV.to_string()` -> `__format_opaque()` (an
     arbitrary String). Only the text of error messages is lost; receivers are plain places (no effects)."""
@@ -843,6 +938,8 @@ def _rewrite_r2_r4(it, rewrites, edits, applied, relfile, lo_t, hi_t, r2_to='ass
         _rewrite_r12(it, rewrites, edits, applied, relfile, lo_t, hi_t)
     if 'R15' in rewrites:
         _rewrite_r15(it, edits, applied, relfile, lo_t, hi_t)
+    if 'R19' in rewrites:
+        _rewrite_r19(it, edits, applied, relfile, lo_t, hi_t)
     if 'R2' in rewrites or 'R2K' in rewrites:
         for j in range(lo_t, hi_t):
             if toks[j].kind == 'ident' and toks[j].text == 'debug_assert' and toks[j + 1].text == '!':
@@ -1034,6 +1131,11 @@ def assemble(template: str, defines: set | None = None) -> Assembled:
                     for part in m.group(1).split():
                         a, b = part.split('=')
                         sections[('names',)][a] = b
+                    continue
+                m = re.match(r'//@keeparm\s+(.+?)\s*$', s2)
+                if m:
+                    sections.setdefault(('keeparm',), [])
+                    sections[('keeparm',)].append(m.group(1))
                     continue
                 m = re.match(r'//@droparm\s+(.+?)\s*$', s2)
                 if m:
